@@ -230,6 +230,27 @@ def ev(node, env):
                 raise EvalSkip("division by a nearly cancelled quantity")
             return a / b, (sa * sb) / (b * b)
         if isinstance(node, E.PowerExpression):
+            if b.denominator != 1 and b.denominator in (2, 3, 4) and abs(b.numerator) <= 12:
+                # rational exponent p/q: defined exactly (principal real root) when the base is
+                # a non-negative perfect q-th power -- e.g. (x^2)^0.5 = |x| at every rational x
+                if a < 0:
+                    raise EvalSkip("fractional power of a negative base")
+                root = _exact_root(a, b.denominator)
+                if root is None:
+                    raise EvalSkip("base is not a perfect power")
+                p = b.numerator
+                if root == 0:
+                    if p <= 0:
+                        raise EvalSkip("0^nonpositive")
+                    return Fraction(0), Fraction(0)
+                if root.numerator.bit_length() * abs(p) > MAX_BITS or root.denominator.bit_length() * abs(p) > MAX_BITS:
+                    raise EvalSkip("too big")
+                v = root ** p
+                try:
+                    amp = Fraction(float(sa / a) ** float(abs(b)))
+                except (OverflowError, ValueError):
+                    raise EvalSkip("too big")
+                return v, abs(v) * max(amp, 1)
             if b.denominator != 1 or abs(b) > 16:
                 raise EvalSkip("exponent domain")
             e = int(b)
@@ -253,6 +274,31 @@ def ev(node, env):
         if isinstance(node, E.EqualExpression):
             raise EvalSkip("nested equation")
     raise EvalSkip("unknown node")
+
+
+def _iroot(n: int, q: int):
+    """Exact integer q-th root of n >= 0, or None."""
+    if n < 0:
+        return None
+    if q == 2:
+        r = math.isqrt(n)
+    else:
+        r = round(n ** (1.0 / q)) if n.bit_length() < 900 else None
+        if r is None:
+            return None
+        while r ** q > n:
+            r -= 1
+        while (r + 1) ** q <= n:
+            r += 1
+    return r if r ** q == n else None
+
+
+def _exact_root(a: Fraction, q: int):
+    rn = _iroot(a.numerator, q)
+    rd = _iroot(a.denominator, q)
+    if rn is None or rd is None:
+        return None
+    return Fraction(rn, rd)
 
 
 def variables_of(root):
